@@ -394,7 +394,9 @@ def power_divergence(X, Y, Z, data, boolean=True, lambda_="cressie-read", **kwar
                 c, _, d, _ = stats.chi2_contingency(contingency, lambda_=lambda_)
                 chi += c
                 dof += d
-        p_value = 1 - stats.chi2.cdf(chi, df=dof)
+        # With zero degrees of freedom (e.g. X or Y constant in every stratum) there is
+        # nothing to test: the statistic is 0 and the p-value is 1 (chi2.cdf gives nan for df=0).
+        p_value = 1 - stats.chi2.cdf(chi, df=dof) if dof > 0 else 1.0
 
     # Step 4: Return the values
     if boolean:
